@@ -60,6 +60,9 @@ func (lex *lexer) Lex(out *yySymType) int {
 
         eof = lex.pe
         tok = 0
+
+        start = lex.p
+        nerrors = len(lex.errors)
     )
 
     %%{
@@ -347,6 +350,11 @@ func (lex *lexer) Lex(out *yySymType) int {
 
     if lex.cs == thrift_error {
         lex.Error("unknown token")
+    } else if tok == 0 && lex.p > start && len(lex.errors) == nerrors {
+        // Only whitespace and comments were left. The scanner forgets
+        // where the last token started once it has skipped those, so
+        // errors at the end of the document are reported there.
+        lex.ts = lex.p
     }
     return tok
 }
